@@ -200,7 +200,9 @@ C17_Dispatch(w1, e, w2) ==
              /\ HubCoins(w2) = HubCoins(w1)
              /\ \A i \in 1..Len(e.fx) : e.fx[i].t = "bank" => e.fx[i].a > 0
 C17_KeeperRate(w0) == DecLe(w0.disp.rate, One)
-C17_Step(w1, e, w2) == C17_Swap(w1, e, w2) /\ C17_Dispatch(w1, e, w2)
+\* a configuration update that names a keeper rate above 1 is rejected, whatever else the message carries (committed or dry run)
+C17_RateRejected(e) == (e.ok /\ ExecIs(e, "dispatcher", "update_config")) => (TopTx(e).msg.krp_keeper_rate = NoneDec \/ DecLe(TopTx(e).msg.krp_keeper_rate, One))
+C17_Step(w1, e, w2) == C17_Swap(w1, e, w2) /\ C17_Dispatch(w1, e, w2) /\ C17_RateRejected(e)
 
 -----------------------------------------------------------------------------
 \* C18 - both tokens conserve supply; only the hub mints and burns
